@@ -32,6 +32,8 @@ def run_world(world, idx=0, timeout=180, hashseed='0', extra_env=None, keep=Fals
         spec['script_parts'] = world['script_parts']
     if world.get('preset'):
         spec['preset'] = True
+    if world.get('stdout_encoding'):
+        spec['stdout_encoding'] = world['stdout_encoding']
     if 'warnings' in world:
         spec['warnings'] = world['warnings']
     if 'child_cwd' in world:
@@ -89,12 +91,15 @@ def split_processes(obs):
     return parent, children, child_order
 
 
-SUMMARY = re.compile(r'  Ran (\d+) tests? with (\d+) failures?, (\d+) errors? and (\d+) skipped in ')
-TOTAL = re.compile(r'^Total: (\d+) tests?, (\d+) failures?, (\d+) errors? and (\d+) skipped', re.M)
+# the colourised formatter words the two lines slightly differently ("errors, N skipped") and wraps the numbers in escape codes
+SUMMARY = re.compile(r'  Ran (\d+) tests? with (\d+) failures?, (\d+) errors?(?: and|,) (\d+) skipped in ')
+TOTAL = re.compile(r'^Total: (\d+) tests?, (\d+) failures?, (\d+) errors?(?: and|,) (\d+) skipped', re.M)
 RUNNING = re.compile(r'^Running (\S+) tests:', re.M)
+ANSI = re.compile(r'\x1b\[[0-9;]*m')
 
 
 def parse_stdout(text):
+    text = ANSI.sub('', text)
     out = {'summaries': [[int(x) for x in m.groups()] for m in SUMMARY.finditer(text)],
            'total': None, 'running': RUNNING.findall(text)}
     m = TOTAL.search(text)
